@@ -65,9 +65,16 @@ package martian
 //@   ensures result != nil ==> b.gFailed
 //@   ensures result == nil ==> b.gFailed == old(b.gFailed)
 //@ extern iface io.Closer.Close
+//@ ghost field net.Conn.connClosed bool
 //@ extern iface net.Conn.Close
-//@   modifies nConnClose
-//@   ensures nConnClose == old(nConnClose) + 1
+//@   modifies nConnClose, self.connClosed
+//@   ensures nConnClose == old(nConnClose) + 1 && self.connClosed
+//@ ghost field net.Listener.lstClosed bool
+//@ extern iface net.Listener.Close
+//@   modifies self.lstClosed
+//@   ensures self.lstClosed
+//@ extern iface net.Listener.Accept
+//@   ensures (result1 == nil) == (result0 != nil)
 
 // ---------------------------------------------------------------------------------------------
 // Sessions and contexts (context.go).
@@ -196,10 +203,12 @@ package martian
 //@   noframe
 //@   requires proxyReady(p) && ctxIdle(ctx) && sessionIdle(ctx.session) && conn != nil && brw != nil && brw.Writer != nil && brw.Reader != nil
 //@   requires !ctx.session.hijacked && secureInv(ctx.session)
-//@   modifies nReq, nRes, nUp, nWrite, bufio.Writer.gFlushed, bufio.Writer.gFailed, wroteErr, gotReq, up0, res0, wr0, didLink, closingSeen, nConnClose, nWarn, lastWarnHeader, ctxs[*], ctxmu.wheld, ctxmu.rheld
+//@   modifies nReq, nRes, nUp, nWrite, bufio.Writer.gFlushed, bufio.Writer.gFailed, wroteErr, gotReq, up0, res0, wr0, didLink, tunnelUp, tunnelConn, dialedConn, net.Conn.connClosed, eofSignalN, closingSeen, nConnClose, nWarn, lastWarnHeader, ctxs[*], ctxmu.wheld, ctxmu.rheld
 //@   modifies http.Request.*, url.URL.*, http.Response.*, Session.hijacked, Session.secure, Session.conn, Session.brw, Context.skipRoundTrip, Context.skipLogging, Context.apiRequest
 //@   modifies sync.RWMutex.wheld, sync.RWMutex.rheld, dialN, lastDialed, lastDialErr, tls.Conn.gclosed, trafficshape.Conn.Context
-//@   ensures[locks-released] tableIdle() && sessionIdle(ctx.session)
+//@   ensures[locks-released] tableIdle() && sessionIdle(ctx.session) && ctxIdle(ctx)
+//@   ensures[every-idle-lock-is-idle-again] forall m *sync.RWMutex :: !old(m.wheld) && old(m.rheld) == 0 ==> !m.wheld && m.rheld == 0
+//@   ensures[response-modifier-never-runs-ahead] nRes - old(nRes) <= nReq - old(nReq)
 //@   ensures[secure-session-has-a-tls-connection] secureInv(ctx.session)
 //@   ensures[response-modifier-runs-once-per-request-modifier] !ctx.session.hijacked ==> nRes - old(nRes) == nReq - old(nReq)
 //@   ensures[at-most-one-upstream-contact-per-exchange] nUp - old(nUp) <= nReq - old(nReq) && nReq >= old(nReq)
@@ -233,10 +242,15 @@ package martian
 //@   modifies nUp
 //@   ensures nUp == old(nUp) + 1 && (result1 == nil) == (result0 != nil)
 
+//@ ghost var dialedConn net.Conn
 //@ func (*Proxy).connect
 //@   serves C04 C02
 //@   requires p != nil && req != nil && req.URL != nil
-//@   modifies nUp
+//@   modifies nUp, dialedConn, net.Conn.connClosed, nConnClose
+//@   ensures[failed-connect-leaves-no-open-connection] result2 != nil && dialedConn != nil ==> dialedConn.connClosed
+//@   ensures[connection-is-the-dialled-one] result2 == nil ==> result1 == dialedConn
+//@   at call 0 of dial after set dialedConn = result0
+//@   at call 1 of dial after set dialedConn = result0
 //@   ensures[one-dial] nUp == old(nUp) + 1
 //@   ensures[connection-and-response-or-error] result2 == nil ==> result0 != nil && result1 != nil && result0.Body != nil && result0.Header != nil
 //@   ensures[error-returns-nothing] result2 != nil ==> result0 == nil && result1 == nil
@@ -248,10 +262,12 @@ package martian
 //@   requires proxyReady(p) && ctxIdle(ctx) && sessionIdle(session) && session == ctx.session && conn != nil && brw != nil && brw.Writer != nil && brw.Reader != nil
 //@   requires req != nil && req.URL != nil && req.Header != nil && has(ctxs, req) && ctxs[req] == ctx && allocated(req)
 //@   requires !session.hijacked && secureInv(session)
-//@   modifies nReq, nRes, nUp, nWrite, bufio.Writer.gFlushed, bufio.Writer.gFailed, wroteErr, gotReq, up0, res0, wr0, didLink, closingSeen, nConnClose, nWarn, lastWarnHeader, ctxs[*], ctxmu.wheld, ctxmu.rheld
+//@   modifies nReq, nRes, nUp, nWrite, bufio.Writer.gFlushed, bufio.Writer.gFailed, wroteErr, gotReq, up0, res0, wr0, didLink, tunnelUp, tunnelConn, dialedConn, net.Conn.connClosed, eofSignalN, closingSeen, nConnClose, nWarn, lastWarnHeader, ctxs[*], ctxmu.wheld, ctxmu.rheld
 //@   modifies http.Request.*, url.URL.*, http.Response.*, Session.hijacked, Session.secure, Session.conn, Session.brw, Context.skipRoundTrip, Context.skipLogging, Context.apiRequest
 //@   modifies sync.RWMutex.wheld, sync.RWMutex.rheld, dialN, lastDialed, lastDialErr, tls.Conn.gclosed, trafficshape.Conn.Context
-//@   ensures[locks-released] tableIdle() && sessionIdle(session)
+//@   ensures[locks-released] tableIdle() && sessionIdle(session) && ctxIdle(ctx)
+//@   ensures[every-idle-lock-is-idle-again] forall m *sync.RWMutex :: !old(m.wheld) && old(m.rheld) == 0 ==> !m.wheld && m.rheld == 0
+//@   ensures[response-modifier-never-runs-ahead] nRes - old(nRes) <= nReq - old(nReq)
 //@   ensures[secure-session-has-a-tls-connection] secureInv(session)
 //@   ensures[connect-runs-the-request-modifier] nReq >= old(nReq) + 1
 //@   ensures[response-modifier-runs-once-per-request-modifier] !session.hijacked ==> nRes - old(nRes) == nReq - old(nReq)
@@ -261,6 +277,62 @@ package martian
 //@   ensures[failed-write-closes-the-connection] (wroteErr && !old(wroteErr)) || (brw.Writer.gFailed && !old(brw.Writer.gFailed)) ==> closeable(result)
 //@   ensures[hijacked-connection-is-not-served-again] session.hijacked ==> closeable(result)
 //@   at call 0 of ModifyRequest before assert[no-upstream-contact-before-request-modifier] nUp == old(nUp)
+//@   ensures[tunnel-end-releases-the-target-connection] p.mitm == nil && tunnelUp ==> tunnelConn.connClosed
+//@   ensures[tunnel-end-closes-the-client-connection] p.mitm == nil && tunnelUp ==> closeable(result)
+//@   at entry 0 before set tunnelUp = false
+//@   at call 0 of connect after set tunnelUp = (result2 == nil)
+//@   at call 0 of connect after set tunnelConn = result1
+//@   at call 1 of ModifyResponse before assert[failed-connect-becomes-a-502-with-a-warning] res.StatusCode == 502 && res.Request == req && lastWarnHeader == res.Header
+//@   at call 0 of handleConnectRequest$1 before assert[client-to-target-copy-reads-through-the-buffered-reader] arg1 == iface(brw) && arg0 == iface(cbw)
+//@   at call 1 of handleConnectRequest$1 before assert[target-to-client-copy-writes-through-the-buffered-writer] arg0 == iface(brw) && arg1 == iface(cbr)
+//@   at call 0 of handleConnectRequest$1 before assert[tunnel-starts-after-the-200-was-flushed] nWrite == old(nWrite) + 1 && brw.Writer.gFlushed >= old(brw.Writer.gFlushed) + 1
 //@   at call 0 of handle before assert[hijacker-gets-the-decrypted-connection] session.conn == conn && session.brw == brw
 //@   at call 0 of handle before assert[tunnel-shares-the-connect-session] ctx.session == session
 //@   at call 1 of handle before assert[tunnel-shares-the-connect-session] ctx.session == session
+
+// ---------------------------------------------------------------------------------------------
+// The per-connection loop, shutdown and the accept loop (C01, C02, C07).
+
+//@ func (*Proxy).handleLoop
+//@   serves C01 C02 C07
+//@   noframe
+//@   requires proxyReady(p) && conn != nil && !p.connsMu.held
+//@   modifies nReq, nRes, nUp, nWrite, bufio.Writer.gFlushed, bufio.Writer.gFailed, wroteErr, gotReq, up0, res0, wr0, didLink, tunnelUp, tunnelConn, dialedConn, net.Conn.connClosed, eofSignalN, closingSeen, nConnClose, nWarn, lastWarnHeader, ctxs[*], ctxmu.wheld, ctxmu.rheld
+//@   modifies http.Request.*, url.URL.*, http.Response.*, Session.hijacked, Session.secure, Session.conn, Session.brw, Context.skipRoundTrip, Context.skipLogging, Context.apiRequest
+//@   modifies sync.RWMutex.wheld, sync.RWMutex.rheld, dialN, lastDialed, lastDialErr, tls.Conn.gclosed, trafficshape.Conn.Context, p.connsMu.held, net.Conn.connClosed
+//@   ensures[connection-closed-on-every-exit] conn.connClosed
+//@   ensures[registration-lock-released] !p.connsMu.held && tableIdle()
+//@   ensures[responses-follow-requests] nWrite - old(nWrite) <= nReq - old(nReq) && nRes - old(nRes) <= nReq - old(nReq)
+//@   loop 0 invariant proxyReady(p) && !p.connsMu.held && ctx != nil && ctxIdle(ctx) && ctx.session == s && s != nil && sessionIdle(s) && !s.hijacked && secureInv(s)
+//@   loop 0 invariant brw != nil && brw.Writer != nil && brw.Reader != nil
+//@   loop 0 invariant nWrite - old(nWrite) <= nReq - old(nReq) && nRes - old(nRes) <= nReq - old(nReq)
+//@   at call 0 of newSession before assert[a-closing-proxy-serves-no-request-on-a-new-connection] !closingSeen && nReq == old(nReq)
+//@   at call 0 of handle before assert[one-session-for-all-exchanges-of-the-connection] ctx.session == s
+
+//@ func (*Proxy).Close
+//@   serves C07
+//@   requires p != nil && !p.connsMu.held
+//@   modifies p.connsMu.held, chanClosedN
+//@   ensures[closing-signalled-exactly-once] chanClosedN == old(chanClosedN) + 1
+//@   ensures[lock-released] !p.connsMu.held
+//@   at call 0 of close after set chanClosedN = chanClosedN + 1
+//@ ghost var chanClosedN int
+
+//@ func (*Proxy).Serve
+//@   serves C07
+//@   requires p != nil && l != nil
+//@   modifies closingSeen, l.lstClosed
+//@   ensures[listener-closed-on-return] l.lstClosed
+//@   at call 0 of Accept before assert[no-accept-once-closing-was-observed] !closingSeen
+
+// ---------------------------------------------------------------------------------------------
+// C04: the copy goroutine of a blind tunnel. When the source of one direction ends, the destination has to be told
+// (half-close or close) before anything waits for the other direction: otherwise the peer only sees end-of-stream when
+// the opposite direction also ends or the idle deadline fires. eofSignalN counts those signals.
+//@ ghost var eofSignalN int
+//@ ghost var tunnelUp bool
+//@ ghost var tunnelConn net.Conn
+//@ func (*Proxy).handleConnectRequest$1
+//@   serves C04
+//@   modifies eofSignalN
+//@   ensures[end-of-stream-propagated-to-the-peer] eofSignalN == old(eofSignalN) + 1
